@@ -13,6 +13,7 @@ import (
 	"github.com/MichaelMure/git-bug/entities/identity"
 	"github.com/MichaelMure/git-bug/entity"
 	"github.com/MichaelMure/git-bug/repository"
+	"github.com/MichaelMure/git-bug/util/lamport"
 
 	"verif/harness/internal/entropy"
 	"verif/harness/internal/ondisk"
@@ -41,7 +42,7 @@ func genC09(t *rapid.T) c09Case {
 	valid := rapid.OneOf(GenTitle(), rapid.SampledFrom([]string{"alice", "bob", "René D", "x"}))
 	invalid := rapid.SampledFrom([]string{"bad\x00name", "two\nlines", "bell\x07", "esc\x1b[31m"})
 	one := rapid.Custom(func(t *rapid.T) c09Action {
-		a := c09Action{Kind: rapid.SampledFrom([]string{"mutate", "mutate", "mutate", "push", "pull", "pull"}).Draw(t, "kind"),
+		a := c09Action{Kind: rapid.SampledFrom([]string{"mutate", "mutate", "mutate", "mutate", "push", "pull", "pull", "clock"}).Draw(t, "kind"),
 			R: rapid.IntRange(0, 1).Draw(t, "r"), Ident: rapid.IntRange(0, c.NIdent-1).Draw(t, "ident")}
 		if a.Kind == "mutate" {
 			a.Field = rapid.SampledFrom([]string{"name", "name", "login", "email", "avatar"}).Draw(t, "field")
@@ -58,6 +59,11 @@ func genC09(t *rapid.T) c09Case {
 		}
 		if a.Kind == "pull" {
 			a.UseCache = rapid.IntRange(0, 2).Draw(t, "cache") == 0
+		}
+		if a.Kind == "clock" {
+			// bug activity in that repository: its logical clocks move (or come into existence)
+			a.Field = rapid.SampledFrom([]string{"bugs-edit", "bugs-create", "bugs-edit"}).Draw(t, "clockName")
+			a.Value = fmt.Sprint(rapid.IntRange(1, 40).Draw(t, "clockValue"))
 		}
 		return a
 	})
@@ -84,6 +90,17 @@ func genC09(t *rapid.T) c09Case {
 	}
 	plan = append(plan, c09Action{Kind: "pull", R: 0, UseCache: rapid.Bool().Draw(t, "planCache")})
 	c.Actions = append(plan, rapid.SliceOfN(one, 0, 16).Draw(t, "actions")...)
+	if rapid.IntRange(0, 3).Draw(t, "clocksBehind") == 0 {
+		// one repository has bug activity (its clocks exist and move) before it edits an identity; the other one,
+		// which only synchronised identities, then edits the same identity with clocks that are behind or absent
+		x := rapid.IntRange(0, 1).Draw(t, "busy")
+		c.Actions = append(c.Actions,
+			c09Action{Kind: "pull", R: x}, // in step with the remote first, so that its own edit can be published
+			c09Action{Kind: "clock", R: x, Field: "bugs-edit", Value: fmt.Sprint(rapid.IntRange(5, 60).Draw(t, "editClock"))},
+			c09Action{Kind: "clock", R: x, Field: "bugs-create", Value: fmt.Sprint(rapid.IntRange(2, 20).Draw(t, "createClock"))},
+			mut(x), c09Action{Kind: "push", R: x}, c09Action{Kind: "pull", R: 1 - x}, mut(1-x),
+			c09Action{Kind: "push", R: 1 - x}, c09Action{Kind: "pull", R: x})
+	}
 	return c
 }
 
@@ -178,11 +195,19 @@ func runC09(tb report.TB, rep *report.Reporter, c c09Case) {
 
 	var shapes []string
 	rejected, accepted := 0, 0
+	clockMoves, clocksBehind := 0, 0
 	for ai, a := range c.Actions {
 		r := repos[a.R]
 		id := ids[a.Ident%len(ids)]
 		where := fmt.Sprintf("action #%d %s r%d ident%d", ai, a.Kind, a.R, a.Ident%len(ids))
 		switch a.Kind {
+		case "clock":
+			var v uint64
+			fmt.Sscan(a.Value, &v)
+			if err := r.Witness(a.Field, lamport.Time(v)); err != nil {
+				tb.Fatalf("harness: witness: %v", err)
+			}
+			clockMoves++
 		case "mutate":
 			ident, err := identity.ReadLocal(r, entity.Id(id))
 			if err != nil {
@@ -191,6 +216,7 @@ func runC09(tb report.TB, rep *report.Reporter, c c09Case) {
 				}
 			}
 			before := chainOf(r, "refs/identities/"+id)
+			prevTimes := ident.LastModificationLamports()
 			_ = ident.Mutate(r, func(m *identity.Mutator) {
 				switch a.Field {
 				case "name":
@@ -209,6 +235,20 @@ func runC09(tb report.TB, rep *report.Reporter, c c09Case) {
 			// reference validity of the resulting field values (from the statement)
 			name, login := ident.Name(), ident.Login()
 			wantOK := !(isEmptyText(name) && isEmptyText(login)) && !hasControl(name) && !hasControl(login) && !hasControl(ident.Email())
+			// the new version records this repository's clocks: it is only acceptable when none of the clocks of the
+			// previous version decreased or disappeared (the statement's "decreasing or dropped logical clocks")
+			clocksOK := true
+			if cur, err := r.AllClocks(); err == nil {
+				for cn, prevT := range prevTimes {
+					if c, ok := cur[cn]; !ok || c.Time() < prevT {
+						clocksOK = false
+					}
+				}
+			}
+			if !clocksOK {
+				clocksBehind++
+			}
+			wantOK = wantOK && clocksOK
 			assertValidity := a.Field != "avatar" // the statement lists name, login and unsafe characters; avatar rules are the code's own
 			err = ident.Commit(r)
 			after := chainOf(r, "refs/identities/"+id)
@@ -228,7 +268,11 @@ func runC09(tb report.TB, rep *report.Reporter, c c09Case) {
 			}
 			accepted++
 			if !wantOK && assertValidity {
-				if fail("invalid-identity-accepted/"+a.Field, fmt.Sprintf("%s %s=%q was committed", where, a.Field, a.Value)) {
+				kind := a.Field
+				if !clocksOK {
+					kind = "clocks-behind-the-previous-version"
+				}
+				if fail("invalid-identity-accepted/"+kind, fmt.Sprintf("%s %s=%q was committed", where, a.Field, a.Value)) {
 					return
 				}
 			}
@@ -383,6 +427,12 @@ func runC09(tb report.TB, rep *report.Reporter, c c09Case) {
 	classes := append([]string{}, shapes...)
 	if rejected > 0 {
 		classes = append(classes, "has-rejected-mutation")
+	}
+	if clockMoves > 0 {
+		classes = append(classes, "clocks-moved-by-bug-activity")
+	}
+	if clocksBehind > 0 {
+		classes = append(classes, "edit-with-clocks-behind-the-previous-version")
 	}
 	rep.Case(fmt.Sprintf("%d|%s|rej%v", c.NIdent, strings.Join(shapes, " "), rejected > 0), nontrivial, classes, c)
 }
